@@ -38,6 +38,9 @@ def verify_one(args):
         from pyvc.source import SourceIndex
         from pyvc.engine import Executor
         from pyvc.core import Untranslatable, ContractError
+        import itertools
+        import pyvc.core as _core
+        _core._fresh = itertools.count()        # deterministic symbol names per function (stable solver behaviour)
         reg = load_contracts()
         c = reg.contracts[qual]
         if vidx is not None:
@@ -70,6 +73,7 @@ def verify_one(args):
                     "timeout": timeout_s}
             if not item["trivial"]:
                 item["smt2"], item["names"], item["small_smt2"] = obligation_text(o)
+                item["core_smt2"] = getattr(o, "core_txt", None)
             out["obligations"].append(item)
         for cid, hyps in covers:
             out["covers"].append({"id": cid, "smt2": hyps_text(hyps)})
